@@ -552,6 +552,9 @@ def _special_cases():
             out.append({"kind": "special", "what": "tiny-unit-large-read", "fmt": fmt, "alloc": alloc})
     for depth in (4, 8):
         out.append({"kind": "special", "what": "vmdk-descriptor-chain-embedded-parents", "depth": depth})
+    for fill in (4096, 65536):
+        for ln in (0xFFFFFFFF, 0xFFFFFFF9, 0xFFFFFFF8):
+            out.append({"kind": "special", "what": "qcow2-extension-length-x-far-end-bound", "fill": fill, "len": ln})
     for tgt in ("pax-header", "first-header", "own-header"):
         for typ in ("x", "X", "g+x", "g+X"):
             out.append({"kind": "special", "what": "vmtar-pax-size-then-visor-offset-backwards", "target": tgt, "typ": typ})
@@ -1042,6 +1045,17 @@ def _run_special(case, ctx):
                 return _drive_stream(v, v.read_sectors)
 
         return _execute(ctx, case, None, None, subject, drv, {}, depth * (8 << 20))
+    if what == "qcow2-extension-length-x-far-end-bound":
+        # two header fields together: the backing-file offset (the end bound of the extension area) far beyond the file, and an
+        # area filled with extension headers whose length rounds up to 0 modulo 2^32 (0xFFFFFFF9 ..) or to a huge value
+        from mc.builders import qcow2 as BQ
+
+        raw = bytearray(BQ.build(["N", "U"], [0, None], 16, 3)[0].tobytes())
+        hl = struct.unpack(">I", raw[100:104])[0]
+        struct.pack_into(">Q", raw, 8, 1 << 62)
+        hdr = struct.pack(">II", 0x7FAB1E55, case["len"])
+        raw[hl:hl + case["fill"]] = hdr * (case["fill"] // 8)
+        return _execute(ctx, case, None, bytes(raw), subject, drv_qcow2, {"backing": True}, len(raw))
     if what == "vmdk-descriptor-chain-embedded-parents":
         # a valid chain: every level is a text descriptor with two sparse extents, and every extent file also carries an embedded
         # descriptor naming the level below.  The work to open it and read a little is linear in the number of files
